@@ -457,14 +457,46 @@ func (fr *frame) loadPtr(T types.Type, addr value) value {
 		fr.guardCheck(a, false)
 		return load(T, a)
 	case *symRef:
-		st := fr.m.st()
-		r := a.elems[len(a.elems)-1].(*Term)
-		for i := len(a.elems) - 2; i >= 0; i-- {
-			r = st.Ite(st.Eq(a.idx, BV(uint64(i), 64)), a.elems[i].(*Term), r)
+		return fr.m.selectByIndex(a.elems, a.idx)
+	}
+	panic(engineError{fmt.Sprintf("load through %T", addr)})
+}
+
+// selectByIndex: the element of a concrete-length vector at a symbolic index
+// (the index is known to be in range).  Runs of equal elements are merged and
+// the choice is a balanced tree of comparisons over the runs, so a lookup
+// table of 4096 entries that is mostly zeros costs a few dozen nodes of depth
+// five or six instead of a chain of 4096.
+func (m *Machine) selectByIndex(elems []value, idx *Term) *Term {
+	st := m.st()
+	type run struct {
+		from int // first index of the run
+		v    *Term
+	}
+	var runs []run
+	for i, e := range elems {
+		t := e.(*Term)
+		if len(runs) == 0 || runs[len(runs)-1].v != t {
+			runs = append(runs, run{i, t})
+		}
+	}
+	if len(runs) <= 8 {
+		// short: the plain chain on equalities / range starts
+		r := runs[len(runs)-1].v
+		for i := len(runs) - 2; i >= 0; i-- {
+			r = st.Ite(st.ULt(idx, BV(uint64(runs[i+1].from), 64)), runs[i].v, r)
 		}
 		return r
 	}
-	panic(engineError{fmt.Sprintf("load through %T", addr)})
+	var build func(lo, hi int) *Term // runs[lo:hi]
+	build = func(lo, hi int) *Term {
+		if hi-lo == 1 {
+			return runs[lo].v
+		}
+		mid := (lo + hi) / 2
+		return st.Ite(st.ULt(idx, BV(uint64(runs[mid].from), 64)), build(lo, mid), build(mid, hi))
+	}
+	return build(0, len(runs))
 }
 
 func (fr *frame) prepareCall(call *ssa.CallCommon) (fn value, args []value) {
